@@ -325,10 +325,46 @@ def r3_r4(ctx: Ctx, pf: FuncInfo) -> None:
     if dfmt is None:
         dfmt = cands[0]
     # suggestion loop
-    loops = [s for s in ast.walk(ci.node) if isinstance(s, ast.For) and 'range(max_col + 1)' in src(s.iter)]
+    # for i in range(<last column> + 1): the bound is a local computed with max(…) over the detected columns (whatever it is called)
+    loops = []
+    for s in ast.walk(ci.node):
+        if isinstance(s, ast.For) and isinstance(s.target, ast.Name) and isinstance(s.iter, ast.Call) and call_name(s.iter) == 'range' and len(s.iter.args) == 1 \
+                and isinstance(s.iter.args[0], ast.BinOp) and isinstance(s.iter.args[0].op, ast.Add) and isinstance(s.iter.args[0].left, ast.Name) \
+                and isinstance(s.iter.args[0].right, ast.Constant) and s.iter.args[0].right.value == 1:
+            bname = s.iter.args[0].left.id
+            bdefs = [a_ for a_ in ast.walk(ci.node) if isinstance(a_, ast.Assign) and len(a_.targets) == 1 and isinstance(a_.targets[0], ast.Name) and a_.targets[0].id == bname]
+            if bdefs and any(isinstance(c_, ast.Call) and call_name(c_) == 'max' for a_ in bdefs for c_ in ast.walk(a_.value)):
+                loops.append((s, bname))
+    table_arms = None
+    if len(loops) != 1:
+        # the same thing with a table: T[spec.X_column] = '{x}' …  and  cols = [T.get(i, '{_}') for i in range(<bound> + 1)]
+        for s in ast.walk(ci.node):
+            comp = s.value if isinstance(s, ast.Assign) and isinstance(s.value, ast.ListComp) and len(s.value.generators) == 1 else None
+            if comp is None or not (isinstance(comp.elt, ast.Call) and isinstance(comp.elt.func, ast.Attribute) and comp.elt.func.attr == 'get' and isinstance(comp.elt.func.value, ast.Name)
+                                    and len(comp.elt.args) == 2 and isinstance(comp.generators[0].target, ast.Name) and src(comp.elt.args[0]) == comp.generators[0].target.id):
+                continue
+            it = comp.generators[0].iter
+            if not (isinstance(it, ast.Call) and call_name(it) == 'range' and len(it.args) == 1 and isinstance(it.args[0], ast.BinOp) and isinstance(it.args[0].left, ast.Name)
+                    and isinstance(it.args[0].right, ast.Constant) and it.args[0].right.value == 1):
+                continue
+            tname, ivar_ = comp.elt.func.value.id, comp.generators[0].target.id
+            stores_ = [a_ for a_ in ast.walk(ci.node) if isinstance(a_, ast.Assign) and len(a_.targets) == 1 and isinstance(a_.targets[0], ast.Subscript)
+                       and isinstance(a_.targets[0].value, ast.Name) and a_.targets[0].value.id == tname]
+            if len(stores_) < 3:
+                continue
+            table_arms = []
+            for a_ in stores_:
+                test_ = ast.Compare(left=ast.Name(id=ivar_, ctx=ast.Load()), ops=[ast.Eq()], comparators=[a_.targets[0].slice])
+                call_ = ast.Expr(value=ast.Call(func=ast.Attribute(value=ast.Name(id='cols', ctx=ast.Load()), attr='append', ctx=ast.Load()), args=[a_.value], keywords=[]))
+                table_arms.append((ast.fix_missing_locations(ast.copy_location(test_, a_)), [ast.fix_missing_locations(ast.copy_location(call_, a_))]))
+            dflt = ast.Expr(value=ast.Call(func=ast.Attribute(value=ast.Name(id='cols', ctx=ast.Load()), attr='append', ctx=ast.Load()), args=[comp.elt.args[1]], keywords=[]))
+            table_arms.append((None, [ast.fix_missing_locations(ast.copy_location(dflt, s))]))
+            fake = ast.For(target=ast.Name(id=ivar_, ctx=ast.Store()), iter=it, body=[ast.Pass()], orelse=[])
+            loops = [(ast.fix_missing_locations(ast.copy_location(fake, s)), it.args[0].left.id)]
+            break
     if len(loops) != 1:
         ctx.unknown('C18.R4', ci, 'suggestion loop not found in cmd_inspect')
-    lp = loops[0]
+    lp, bound_name = loops[0]
     ivar = lp.target.id
     arms = []
     cur = lp.body[0] if lp.body and isinstance(lp.body[0], ast.If) else None
@@ -339,6 +375,8 @@ def r3_r4(ctx: Ctx, pf: FuncInfo) -> None:
         else:
             arms.append((None, cur.orelse))
             cur = None
+    if table_arms is not None:
+        arms = table_arms
     if len(arms) < 4:
         ctx.unknown('C18.R4', ci, f'{len(arms)} arms in the suggestion loop')
     seen = set()
@@ -365,6 +403,14 @@ def r3_r4(ctx: Ctx, pf: FuncInfo) -> None:
                     text += dfmt if hole == 'spec.date_format' else '<?>'
         elif isinstance(tok, ast.Constant):
             text = tok.value
+        elif isinstance(tok, ast.Call) and isinstance(tok.func, ast.Attribute) and tok.func.attr == 'format' and isinstance(tok.func.value, ast.Constant) \
+                and isinstance(tok.func.value.value, str) and not tok.keywords:
+            # '{{date:{}}}'.format(spec.date_format): the same text with the hole filled by the detector literal
+            fills = [dfmt if src(a_) == 'spec.date_format' else '<?>' for a_ in tok.args]
+            try:
+                text = tok.func.value.value.format(*fills)
+            except (IndexError, KeyError, ValueError):
+                ctx.unknown('C18.R3', ci, f'token expression {src(tok)!r}')
         else:
             ctx.unknown('C18.R3', ci, f'token expression {src(tok)!r}')
         m = rx.fullmatch(text)
@@ -387,18 +433,23 @@ def r3_r4(ctx: Ctx, pf: FuncInfo) -> None:
         ctx.check(ok, 'C18.R4', ci, f'arm:{col}', f'column spec.{col}_column -> token {{{name}}}', f'`{t}` emits {text!r}: the suggested string selects a different column than inspect reported', app[0])
     ctx.check({'date', 'description', 'amount'} <= seen, 'C18.R4', ci, 'arms-total', 'date, description and amount columns each get their token', f'suggestion loop covers only {sorted(x for x in seen if x)}')
     # join separator
-    joins = [s for s in ast.walk(ci.node) if isinstance(s, ast.Assign) and src(s.targets[0]) == 'format_str' and isinstance(s.value, ast.Call) and call_name(s.value) == 'join']
+    joins = [s for s in ast.walk(ci.node) if isinstance(s, ast.Assign) and isinstance(s.value, ast.Call) and call_name(s.value) == 'join' and s.value.args and src(s.value.args[0]) == 'cols']
     ok = bool(joins) and isinstance(joins[0].value.func.value, ast.Constant) and ',' in joins[0].value.func.value.value and joins[0].value.func.value.value.strip() == ',' \
         and src(joins[0].value.args[0]) == 'cols'
     ctx.check(ok, 'C18.R3', ci, 'separator', 'tokens are joined with a comma (the reader splits on commas and strips blanks)', f'tokens are joined by {src(joins[0].value.func.value) if joins else None!r}')
     # max_col covers every detected column
-    mc = [s for s in ast.walk(ci.node) if isinstance(s, ast.Assign) and src(s.targets[0]) == 'max_col']
-    ok = bool(mc) and all(k in src(mc[0].value) for k in ('spec.date_column', 'spec.description_column', 'spec.amount_column'))
+    mc = [s for s in ast.walk(ci.node) if isinstance(s, ast.Assign) and src(s.targets[0]) == bound_name]
+    cifl = get_flow(proj, ci)
+    # by provenance: the bound derives from the three required columns (directly in the max(), or through a list of the mapped columns)
+    b_atoms = set()
+    for m_ in mc:
+        b_atoms |= cifl.atoms(m_.value, m_)
+    ok = bool(mc) and all(f'attr:spec.{k}_column' in b_atoms or any(k2 in src(m_.value) for m_ in mc for k2 in (f'spec.{k}_column',)) for k in ('date', 'description', 'amount'))
     ctx.check(ok, 'C18.R4', ci, 'range', 'the suggestion covers columns 0..max(detected columns)', 'the suggestion range does not cover all detected columns')
     # … and stays that wide: a later adjustment (the optional location column) can only widen it
     for later in mc[1:]:
         v_ = later.value
-        widen = isinstance(v_, ast.Call) and call_name(v_) == 'max' and any(isinstance(a_, ast.Name) and a_.id == 'max_col' for a_ in v_.args)
+        widen = isinstance(v_, ast.Call) and call_name(v_) == 'max' and any(isinstance(a_, ast.Name) and a_.id == bound_name for a_ in v_.args)
         ctx.check(widen, 'C18.R4', ci, 'range:only-widened', f'{src(later)[:50]} keeps the columns already covered', f'{src(later)[:60]!r} replaces the range instead of widening it: with the location '
                   f'column in front of the description or amount column the suggested string stops short of a required field', later)
     # printed column lines read the same attributes
